@@ -80,6 +80,7 @@ def project(kind, case, step, op, line):
 
 P = histprop.HistProp(
     "C14", [], project=project, extra_gen=script_cases, builds=(False, True),
+    corpus_cases=lambda: hist.open_handle_cases("c14", ["mem", "alt_mem", "ovl_mm", "ovl_mmm", "ovl_sub", "alt_ovl"]),
     rule=("handle scripts: read(n) with n in {0,1,2,7,len,len+5,4096}, seek(Start|Current|End) with offsets from "
           "{0,+-1,len-1,len,len+1,-len,-len-1,i64::MIN,i64::MAX,2^40,u64::MAX} on read handles (file in the upper or in a lower "
           "layer), each script continued after a read_to_end (the drained handle must sit at its end); write/seek/flush scripts on create handles, also on a create handle over an existing non-empty file (it starts "
